@@ -154,14 +154,95 @@ def check(seed, n, thorough):
             diff = {k: (b.get(k), a.get(k)) for k in a if a.get(k) != b.get(k)}
             violations.append({"property": "C15", "stream": "isolation", "sig": "default-arg:" + name, "case": {"function": name},
                                "what": "shared default Settings() of {} changed during runs: {}".format(name, diff)})
-    return {"evaluations": evals, "violations": violations, "disagreements": disagreements, "programs": len(progs)}
+    fr = check_files(seed + 5, 200 if thorough else 24, [t for t, _p, _s in progs])
+    evals += fr["evaluations"]
+    violations += fr["violations"]
+    return {"evaluations": evals, "violations": violations, "disagreements": disagreements, "programs": len(progs),
+            "file_sequences": fr["distinct"]}
 
 
+
+
+# ---------------------------------------------------------------------------------------------------------
+# process level: `main` called several times in one process on files whose content changes between the calls
+
+def main_on(path, root, extra=()):
+    import hera.main as M
+    with proto.Capture() as cap:
+        code = 0
+        try:
+            M.main(["--no-color"] + list(extra) + [path])
+        except SystemExit as e:
+            code = e.code or 0
+        except BaseException as e:  # noqa
+            code = "raised " + type(e).__name__
+        out, errs = cap.take()
+    return (code, out.replace(root, "<D>"), "\n".join(errs).replace(root, "<D>"))
+
+
+def write_files(d, files):
+    import os
+    os.makedirs(d, exist_ok=True)
+    for name, text in files.items():
+        with open(os.path.join(d, name), "w") as f:
+            f.write(text)
+
+
+def file_sequence_problem(steps):
+    """steps: [{file name: text}] - successive contents of one directory, `main.hera` is run after each change.
+    Every run must equal the run of the same files in a directory that no earlier call has seen."""
+    import os, shutil, tempfile
+    top = tempfile.mkdtemp(prefix="hera_verif_iso_")
+    try:
+        shared = os.path.join(top, "shared")
+        current = {}
+        for i, files in enumerate(steps):
+            current.update(files)
+            write_files(shared, files)
+            got = main_on(os.path.join(shared, "main.hera"), shared)
+            fresh = os.path.join(top, "fresh{}".format(i))
+            write_files(fresh, current)
+            want = main_on(os.path.join(fresh, "main.hera"), fresh)
+            if got != want:
+                part = ["exit status", "standard output", "standard error"][[a != b for a, b in zip(got, want)].index(True)]
+                return ("run #{} of main.hera in one process, after {} changed on disk, differs from the run of the same files "
+                        "in a fresh place ({}): {!r} vs {!r}").format(i + 1, sorted(files), part, str(got[1] + got[2])[-70:], str(want[1] + want[2])[-70:])
+        return None
+    finally:
+        shutil.rmtree(top, ignore_errors=True)
+
+
+def check_files(seed, n, texts):
+    rng = random.Random(seed)
+    violations, evals, seen = [], 0, set()
+    if not texts:
+        return {"evaluations": 0, "violations": [], "distinct": 0}
+    for k in range(n):
+        a, b = rng.choice(texts), rng.choice(texts)
+        lib = lambda j: "SET(R10, {})\nprint_reg(R10)\n".format(j)   # noqa
+        inc = '#include "lib.hera"\n'
+        form = k % 4
+        if form == 0:      # the program file itself is rewritten
+            steps = [{"main.hera": a}, {"main.hera": b}, {"main.hera": a}]
+        elif form == 1:    # an included file is rewritten, the including file stays
+            steps = [{"main.hera": inc + a, "lib.hera": lib(1)}, {"lib.hera": lib(2)}, {"lib.hera": "SET(R10, 3)\nFOO(1)\n"}, {"lib.hera": lib(1)}]
+        elif form == 2:    # a file with an error is repaired
+            steps = [{"main.hera": "SET(R1, 1)\nFOO(R1)\n"}, {"main.hera": b}]
+        else:              # the same program twice, then another
+            steps = [{"main.hera": a}, {}, {"main.hera": inc + b, "lib.hera": lib(k)}]
+        r = file_sequence_problem(steps)
+        evals += len(steps) * 2
+        seen.add(repr(steps))
+        if r:
+            violations.append({"property": "C15", "stream": "files", "sig": "files:{}".format(form), "case": {"file_steps": steps}, "what": r})
+    return {"evaluations": evals, "violations": violations, "distinct": len(seen)}
 
 
 def replay_case(case):
     """Re-run one recorded case against the real code; returns a description if it still fails."""
     import hera.vm as V
+    if "file_steps" in case:
+        return file_sequence_problem(case["file_steps"])
     if "text" not in case:
         base = [(name, copy.deepcopy(vars(d))) for name, d in default_settings_objects()]
         check(0, 3, False)
